@@ -217,6 +217,54 @@ let c16_oracle (ops : op list) (obs : string list) : string =
       | _ -> ()) ops obs;
   if !verdict <> "" then "fail " ^ !verdict else if !checks = 0 then "skip nothing-checked" else "pass"
 
+(* ---- C19: I/O failures ---- *)
+let rec starts_with (p : bytes) (s : bytes) : bool =
+  match p, s with [], _ -> true | x :: p', y :: s' -> x = y && starts_with p' s' | _ :: _, [] -> false
+let rec drop n l = if n <= 0 then l else match l with [] -> [] | _ :: r -> drop (n - 1) r
+
+let errs_of_snapshot (o : string) : string =
+  try let i = String.rindex o '=' in String.sub o (i + 1) (String.length o - i - 1) with _ -> ""
+
+let c19_oracle (ops : op list) (obs : string list) : string =
+  if List.length ops <> List.length obs then "fail observation-shape" else
+  (* records with a flag: must it be present?  (written while no fault was pending) *)
+  let recs = ref [] and pending = ref false and cfg = ref None and live = ref false in
+  let panic = ref false and last = ref None and never = ref true in
+  List.iter2 (fun op ob ->
+      if ob = "r2" || ob = "l2[]" then panic := true;
+      match op with
+      | OStart c -> cfg := Some c; live := true;
+        (match c.c_rot with Some ((_, _), KNever) | None -> () | _ -> never := false)
+      | OSetFaults l -> pending := (l <> [])
+      | OWrite b | OPlain b -> if !live then recs := (b, not !pending) :: !recs
+      | OStop -> live := false
+      | OSnap -> if is_snapshot ob then last := Some ob
+      | _ -> ()) ops obs;
+  if !panic then "fail an-operation-panicked" else
+  match !cfg, !last with
+  | Some c, Some ob ->
+    let snap = parse_snapshot ob in
+    let stream = ref (stream_of c snap) in
+    let missing = ref 0 and bad = ref "" in
+    (* with a cleanup limit the oldest records may be gone: skip them up to the first record the stream starts with *)
+    let rs = List.rev !recs in
+    let rec skip_cleaned = function
+      | (b, _) :: r when (not !never) && not (b <> [] && starts_with b !stream) -> skip_cleaned r
+      | l -> l in
+    let rs = skip_cleaned rs in
+    List.iter (fun (b, must) ->
+        if b <> [] && starts_with b !stream then stream := drop (List.length b) !stream
+        else if b = [] then ()
+        else begin
+          incr missing;
+          if must && !never && !bad = "" then bad := "record-lost-although-its-own-write-did-not-fail " ^ hex_of_bytes b
+        end) rs;
+    if !bad <> "" then "fail " ^ !bad
+    else if !stream <> [] && !never then "fail stream-holds-bytes-that-are-no-record-or-out-of-order"
+    else if !missing > 0 && errs_of_snapshot ob = "" then "fail records-lost-without-any-report-on-the-error-channel"
+    else "pass"
+  | _ -> "skip shape"
+
 let flw_oracle (prop : string) (case_toks : string list) (obs : string list) : string =
   let (pre, ops) = split_at_semicolon [] case_toks in
   let ann = annotations pre in
@@ -225,6 +273,7 @@ let flw_oracle (prop : string) (case_toks : string list) (obs : string list) : s
   let rec strip = function (OExtCreate _ | OExtMkdir _) :: r -> strip r | l -> l in
   if prop = "C06" || prop = "C07" || prop = "C18" then snap_oracle prop ops obs else
   if prop = "C16" then c16_oracle ops obs else
+  if prop = "C19" then c19_oracle ops obs else
   if prop = "C09" then
     (match last_snapshot obs, case_toks with
      | Some files, t0 :: off :: _ -> c09_oracle (int_of_string t0) (int_of_string off) ann ops files
